@@ -9,7 +9,7 @@
 (* enumerator, "T2:" = tool problem, not a verdict) and compares the       *)
 (* clause set with Enc.tla's own output (translation validation, "T2:").   *)
 (***************************************************************************)
-EXTENDS Enc, TLC, Json, IOUtils
+EXTENDS Enc, Meta, TLC, Json, IOUtils
 Rec == ndJsonDeserialize(IOEnv.TRACE)
 CONSTANT BruteMaxVars
 VARIABLES l, af
@@ -18,7 +18,8 @@ Pairs(seq) == {<<p[1], p[2]>> : p \in ToSet(seq)}
 
 JudgeEnc(e) ==
   LET sets == {ToSet(m[1]) : m \in ToSet(e.models)}
-      intended == Intended(af, e.encoder)
+      \* padded frameworks (core + sinks): the intended family is lifted from the core (theorem LiftTheorem of MCDung)
+      intended == IF e.core_n > 0 THEN LiftedFam(af, 1..e.core_n, IF e.encoder = "stable" THEN "ST" ELSE "CO") ELSE Intended(af, e.encoder)
       args == SetToSortSeq(af.args, <)
       cls == {ToSet(c) : c \in ToSet(e.clauses)}
   IN
